@@ -15,7 +15,7 @@ import pandas as pd
 from vf import core, linalg
 
 ID = "C03"
-LEV = {"f": ["a", "b"], "g": ["s", "t", "u"], "h": ["p", "q"], "j": ["m", "n"], "k": [1, 2, 3]}
+LEV = {"f": ["a", "b"], "g": ["s", "t", "u"], "h": ["p", "q"], "j": ["m", "n"], "k": [1, 2, 3], "m": ["v", "w"]}
 NUM = ["x", "z"]
 
 
